@@ -7,7 +7,6 @@ package simnet
 
 import (
 	"context"
-	"crypto/tls"
 	"encoding/binary"
 	"errors"
 	"fmt"
@@ -106,8 +105,11 @@ type Net struct {
 
 	Sent, Delivered, Dropped int64
 
-	// DialTLS is installed by worlds that simulate TCP/TLS (stream.go).
-	DialTLS func(dialer *net.Dialer, network, addr string, config *tls.Config) (*tls.Conn, error)
+	// Simulated TCP (stream.go)
+	streamListeners map[netip.AddrPort]*StreamListener
+	streamSeq       int
+	TLSClientHost   *Host                 // host that tls.DialWithDialer stand-in dials from
+	Names           map[string]netip.Addr // host names resolvable by DialStream
 }
 
 var active struct {
